@@ -92,7 +92,7 @@ def mc(name, quick=True, **kw):
 MC = {
     "C01": [mc("MC_Line")], "C02": [mc("MC_Line")], "C03": [mc("MC_Line"), mc("MC_Args")], "C04": [mc("MC_Args"), mc("MC_FnNum", module="MC_Fn", function_level=True)], "C05": [mc("MC_Args"), mc("MC_FnBuf", module="MC_Fn", function_level=True)],
     "C06": [mc("MC_Line")], "C07": [mc("MC_FnNum", module="MC_Fn", function_level=True), mc("MC_FnBuf", module="MC_Fn", function_level=True)], "C08": [mc("MC_Args"), mc("MC_FnBuf", module="MC_Fn", function_level=True)], "C09": [mc("MC_Flags")], "C10": [mc("MC_Codes")],
-    "C11": [mc("MC_Sched")], "C12": [mc("MC_Sched")], "C13": [mc("MC_Ring"), mc("MC_Sched"), {"name": "Apalache_CatRing", "apalache": True, "quick": True}], "C14": [mc("MC_Hold")],
+    "C11": [mc("MC_Sched")], "C12": [mc("MC_Sched")], "C13": [mc("MC_Ring"), mc("MC_Sched"), {"name": "Apalache_CatRing", "apalache": True, "quick": True}], "C14": [mc("MC_Hold"), mc("MC_HoldNest", module="MC_Hold", quick=False, cfg="MC_HoldNest", cfg_thorough="MC_HoldNest")],
     "C15": [mc("MC_Live"), mc("MC_Sched", quick=False)], "C16": [mc("MC_Mutex")], "C17": [mc("MC_Threads", module="CatThreads")], "C18": [mc("MC_Sched"), mc("MC_Hold")],
     "C19": [mc("MC_List")], "C20": [mc("MC_Hist")],
 }
